@@ -1,21 +1,41 @@
 """C04 - no client input causes an internal error; HTTP/2 faults stay on their stream.
 
 Bounded exhaustive enumeration of client inputs, each executed against the real TCPServer / H11Protocol /
-H2Protocol / stream classes on the virtual-time asyncio loop and on instrumented trio.  Six families:
+H2Protocol / stream classes on the virtual-time asyncio loop and on instrumented trio.  Eight families:
 
   short   every byte string of length <= 3 (quick) / 4 (thorough) over a 12 byte alphabet, as the first bytes of
           an HTTP/1 connection and directly after the HTTP/2 client preface, followed by EOF or by a valid
           request; on HTTP/2 also as the type / flags / stream-id bytes of an empty frame.
   mut     every single-point mutation (delete, duplicate, flip low bit, replace by 00 0a 0d 20 3a 80 ff,
-          truncate here + EOF, unmutated but cut here) of every byte of six valid sessions (HTTP/1.1 keep-alive
+          truncate here + EOF, unmutated but cut here) of every byte of eight valid sessions (HTTP/1.1 keep-alive
           pair, chunked POST, h2c upgrade + second request, WebSocket over h1, HTTP/2 with two streams, WebSocket
-          over HTTP/2), fed in one read and split at the mutation point; connection ended by EOF (and, thorough,
-          left to the idle timer).  Quick runs the full set on asyncio and a subset of the operators on trio.
+          over HTTP/2, and the two WebSocket sessions once more with Sec-WebSocket-Protocol / -Extensions token
+          lists in the handshake - over HTTP/2 in literal HPACK so that header bytes are mutated as such - and a
+          ping frame after the close frame), fed in one read and split at the mutation point; connection ended by
+          EOF (and, thorough, left to the idle timer).  Quick runs the full set on asyncio and a subset of the
+          operators on trio.
   splice  prefix of session A up to a structural boundary (line / chunk / frame) followed by the suffix of
-          session B from a structural boundary; every A, B and pair of boundaries; whole and split at the joint.
-  flood   one legal frame repeated 1100 times (PRIORITY on idle streams, with idle parents, PING, SETTINGS,
-          WINDOW_UPDATE on the connection / a closed stream, RST_STREAM on a closed stream, empty DATA, unknown
-          type, GET), in one read and in reads of 64 frames, followed by an ordinary request.
+          session B from a structural boundary; every A, B (the first six sessions) and pair of boundaries; whole
+          and split at the joint.
+  flood   one legal frame repeated 1100 times (PRIORITY: idle streams below the root / each below an idle parent of
+          its own / each below the idle stream prioritised next, i.e. a chain / one open stream re-parented onto
+          ever new idle streams; PING, SETTINGS, WINDOW_UPDATE on the connection / a closed stream, RST_STREAM on
+          a closed stream, empty DATA, unknown type, GET), in one read, in reads of 64 frames, and 'mixed': every
+          flood frame followed by a GET on a fresh stream (reads of 64 such rounds), so that each prefix of the flood
+          is followed by an ordinary request and a server-side limit the flood fills exactly is met whatever its
+          value; followed by an ordinary request.  All requests must be served unless the server says GOAWAY.
+  wsafter Explorer A over what follows the end of a WebSocket: handshake (over HTTP/1.1 and over HTTP/2), a
+          message, the WebSocket closed by {client close frame, application returns, application sends close,
+          application raises} (the application ones released by the explorer), then {ping, text, second close
+          frame, one zero byte} from the client - as a later data event injected at every point the server still
+          has work to do (M), and, client close, inside one segment that is longer than a single read of the server
+          (2^16 bytes) with the late bytes reaching into the second read.
+  late    Explorer A over uploads that go on after the response: the application answers POST on the headers
+          alone, the client (a real h2 client connection, every DATA command enabled only while the windows granted
+          by the server cover it) keeps sending DATA on the answered stream(s) until the whole initial connection
+          window (65535 bytes, in frames of 16384) has gone into late DATA - on one stream, with END_STREAM, or
+          spread over two streams - while a sibling POST with a 5 byte body (opened before or after) must still
+          be able to upload and complete.
   odd     Explorer A (deviation-bounded interleavings, M mid-flight injections, S pre-emptions, trio R) of the
           HTTP-level oddities the property names (DATA / trailers after the response completed, CONNECT without
           :path, non-ASCII :path on a request and on an extended CONNECT; also RST_STREAM on an open / closed
@@ -51,6 +71,9 @@ Oracle clauses
         be sent because the server closed the connection counts as incomplete.  Streams that are themselves the
         unusual request are never judged ("affects at most its own stream").  key = h2:<oddities sent so far>
         (other-stream-incomplete) or h2:<request kind>:<what is missing> (stream-not-served: no oddity involved).
+        late: key = h2:data-after-response:<upload-blocked | no-response | status-N | partial | reset-N>; upload-blocked
+        = the sibling's DATA never became sendable for a client that respects flow control.
+        flood: stream-not-served key = h2:after-flood | h2:during-flood.
   Once an execution has reported an internal error the not-closed clauses are not evaluated for it (the connection
   is already dead or stuck; one root cause, one report).
 """
@@ -63,10 +86,11 @@ import time
 from typing import Any, Dict, List, Optional, Tuple
 
 from mc import aio
+from mc.clients import OP_PING, OP_TEXT, make_client, ws_close_frame, ws_frame, ws_h1_handshake, ws_h2_headers
 from mc.core import HarnessError, digest
 from mc.explore import ExecResult, V, _blank_result, bfs, explore_item
 from mc.harness import default_observation, describe, exc_site, generic_violations, run_world, std_execute
-from mc.x_c04_gen import (ANSWERED_AT_ONCE, APPS, CORPUS, H1_GET, H2_GET, SESSIONS, ClientModel, boundaries,
+from mc.x_c04_gen import (ANSWERED_AT_ONCE, APPS, CORPUS, H1_GET, H2_GET, SESSIONS, SPLICE_SESSIONS, ClientModel, boundaries,
                           case_events, grammar_enabled, grammar_events, grammar_roots, mutation_cases, session_bytes,
                           short_strings)
 from mc.x_c04_ref import (f_data, f_headers, f_ping, f_priority, f_rst, f_settings, f_winup, frame, h1_expect,
@@ -74,27 +98,37 @@ from mc.x_c04_ref import (f_data, f_headers, f_ping, f_priority, f_rst, f_settin
 
 ID = "C04"
 LEVEL = "model_checking"
-TECHNIQUE = ("bounded exhaustive input enumeration (short strings, distance-1 mutations, structural splices) plus "
-             "stateless deviation-bounded exploration and explicit-state breadth-first search over an HTTP/2 frame "
-             "grammar, all executing the real connection handler under a virtual-time loop / instrumented trio; "
-             "oracles from independent h11 / h2 reference connections and a frame-level reader of server output")
+TECHNIQUE = ("bounded exhaustive input enumeration (short strings, distance-1 mutations, structural splices, frame "
+             "floods in three feeds incl. interleaved with ordinary requests) plus stateless deviation-bounded "
+             "exploration (HTTP-level oddities next to a sibling stream, bytes after the end of a WebSocket, uploads "
+             "continuing after the response up to the connection window through a flow-control respecting h2 client) "
+             "and explicit-state breadth-first search over an HTTP/2 frame grammar, all executing the real connection "
+             "handler under a virtual-time loop / instrumented trio; oracles from independent h11 / h2 reference "
+             "connections, a real h2 client connection and a frame-level reader of server output")
 RULE = ("one evaluation = one execution of the real handler on one input (family x engine x carrier x input x "
         "segmentation x ending) or one BFS transition; non-trivial = at least one application instance started; "
         "distinct by digest of (per-instance message sequences, parsed client view, handler result, close flags)")
 ASSUMPTIONS = [
     "environment model (fake transport/stream, virtual loop) is bound to real sockets by ./check selftest",
-    "'all byte strings' is decided for all strings up to the stated length, the distance-1 ball around six valid "
+    "'all byte strings' is decided for all strings up to the stated length, the distance-1 ball around eight valid "
     "sessions, structural splices and all grammar words to the stated depth, not for arbitrary long input",
+    "a data event is delivered only while the server's transport still reads (as a socket would): bytes 'after the "
+    "close' reach the asyncio worker either while it is still busy or inside a segment longer than one read",
     "malformedness of HTTP/1 input and its status hint are taken from a fresh h11 server connection, HTTP/2 "
     "connection errors from a fresh h2 server connection that never answers (used only as: reference error => the "
     "server must end the connection)",
     "scripted applications answer every complete request with 200 and a 3 byte body",
 ]
 BOUNDS_DOC = {
-    "quick": "short strings len<=3; mutations: all on asyncio, 4 operators on trio; splices whole+split (trio whole); "
-             "floods of 1100 frames; odd: M<=1,S<=2; grammar BFS depth 3 on asyncio, 2 on trio",
+    "quick": "short strings len<=3; mutations of 8 sessions: all on asyncio, 4 operators on trio; splices of 6 sessions "
+             "whole+split (trio whole); 12 floods of 1100 frames whole / reads of 64 / (the 4 PRIORITY floods) mixed "
+             "with 1100 GETs; odd and wsafter (2 carriers x 4 closers x 4 late inputs, + one-segment-two-reads on "
+             "ws/h1): M<=1,S<=2; late (window 65535 in 16384 byte frames; shapes one, two; sibling before/after): "
+             "M<=1,S<=1; grammar BFS depth 3 on asyncio, 2 on trio",
     "thorough": "short strings len<=4 (asyncio; 3 on trio); all mutations on both engines with EOF and idle-timer "
-                "endings; splices; floods of 1100 frames; odd: M<=2,S<=3 (trio: M<=1,S<=3,R<=1); grammar BFS depth 4 (full alphabet, both engines) and depth 5 (core alphabet, asyncio)",
+                "endings; splices; all floods in all three feeds; odd and wsafter (two-reads segment on both "
+                "carriers): M<=2,S<=3 (trio: M<=1,S<=3,R<=1); late (shapes one, one_end, two): M<=1,S<=2 (trio R<=1); "
+                "grammar BFS depth 4 (full alphabet, both engines) and depth 5 (core alphabet, asyncio)",
 }
 BUDGET = {"quick": 90, "thorough": 1200}
 
@@ -125,8 +159,27 @@ ODDITIES = {
 
 
 FLOOD_N = 1100
-FLOODS = ("priority_idle", "priority_idle_parent", "ping", "settings", "winup0", "unknown", "winup_closed",
-          "rst_closed", "data_empty", "get")
+FLOODS = ("priority_idle", "priority_idle_parent", "priority_idle_chain", "priority_reparent", "ping", "settings",
+          "winup0", "unknown", "winup_closed", "rst_closed", "data_empty", "get")
+FLOOD_IDS = {"priority_idle": 1, "priority_idle_parent": 2, "priority_idle_chain": 1, "priority_reparent": 1, "get": 1}
+FLOOD_HEAD = ("priority_reparent", "winup_closed", "rst_closed", "data_empty")  # stream 1 is opened before the flood
+
+# ws-after: what closes the WebSocket x what the client sends afterwards x how it reaches the server
+WSAFTER_CLOSERS = {"client_close": b"/w", "app_return": b"/ret", "app_close": b"/close", "app_raise": b"/raise"}
+WSAFTER_LATE = {"ping": ws_frame(OP_PING, b"late"), "text": ws_frame(OP_TEXT, b"more"),
+                "close": ws_close_frame(1000, "again"), "byte": b"\x00"}
+MAX_RECV = 2 ** 16  # what one read of either worker returns at most (documented constant of both TCP servers)
+
+# late: DATA for streams whose response has completed, amounting to the whole connection window
+H2_WINDOW = 65535  # initial flow-control window of the connection and of every stream (RFC 7540 6.9.2)
+H2_FRAME = 16384  # default SETTINGS_MAX_FRAME_SIZE
+LATE_SHAPES = {
+    # name: ((late stream index, bytes of late DATA), ...), END_STREAM on the last late frame of each stream
+    "one": (((0, H2_WINDOW),), False),
+    "one_end": (((0, H2_WINDOW),), True),
+    "two": (((0, 2 * H2_FRAME), (1, H2_WINDOW - 2 * H2_FRAME)), False),
+}
+EXPLORER_A = ("odd", "wsafter", "late")
 
 
 def scenarios(tier: str) -> List[Any]:
@@ -145,15 +198,25 @@ def scenarios(tier: str) -> List[Any]:
             size = len(session_bytes(name))
             for lo in range(0, size, MUT_POSITIONS):
                 out.append(("mut", engine, name, lo, min(size, lo + MUT_POSITIONS), tier))
-        for a in SESSIONS:
-            for b in SESSIONS:
+        for a in SPLICE_SESSIONS:
+            for b in SPLICE_SESSIONS:
                 out.append(("splice", engine, a, b, tier))
         out.append(("h2cup", engine))
         for op in FLOODS:
-            out.append(("flood", engine, op, FLOOD_N))
+            out.append(("flood", engine, op, FLOOD_N, tier))
         for odd in ODDITIES:
             for arr in ("sib_first", "sib_after"):
                 out.append(("odd", engine, odd, arr))
+        for carrier in ("ws/h1", "ws/h2"):
+            for closer in WSAFTER_CLOSERS:
+                for late in WSAFTER_LATE:
+                    out.append(("wsafter", engine, carrier, closer, late, "events"))
+                    if closer == "client_close" and (thorough or carrier == "ws/h1"):
+                        out.append(("wsafter", engine, carrier, closer, late, "bigread"))
+        for shape in LATE_SHAPES:
+            if thorough or shape != "one_end":
+                for arr in ("sib_open", "sib_after"):
+                    out.append(("late", engine, shape, arr))
         for depth, alphabet in GRAMMAR[(tier, engine)]:
             for root in grammar_roots(alphabet, 2 if depth >= 4 else 1):
                 out.append(("gram", engine, depth, tuple(root), alphabet))
@@ -170,6 +233,8 @@ GRAMMAR = {
 
 
 def bounds(tier: str, params: Any) -> dict:
+    if params[0] == "late":  # long histories of large frames: one pre-emption less than the other families
+        return {"M": 1, "S": 1, "R": 0} if tier == "quick" else {"M": 1, "S": 2, "R": 1 if params[1] == "trio" else 0}
     if tier == "quick":
         return {"M": 1, "S": 2, "R": 0}
     if params[1] == "trio":
@@ -183,7 +248,8 @@ def bounds(tier: str, params: Any) -> dict:
 
 def _scenario(conn: dict, sources: List[tuple], midflight: bool = False, trio_rev: bool = False) -> dict:
     return {"level": "conn", "conns": {0: conn}, "client_factory": make_raw_client, "apps": APPS,
-            "config": {"keep_alive_timeout": 5}, "sources": sources, "midflight": midflight, "trio_rev": trio_rev}
+            "config": {"keep_alive_timeout": 5, **conn.get("cfg", {})}, "sources": sources, "midflight": midflight,
+            "trio_rev": trio_rev}
 
 
 def _fired_bytes(w: Any) -> Tuple[List[bytes], bool, bool]:
@@ -301,19 +367,25 @@ def judge_bytes(w: Any, conn: dict) -> List[dict]:
     rec = w.conns[0]
     segs, eof, ending = _fired_bytes(w)
     if conn.get("alpn") == "h2" or conn["carrier"] == "h2pk":  # h2pk: cleartext prior knowledge, same framing
-        err = h2_expect(segs)
+        # mixed flood: the reference never answers, so the interleaved (complete, at once answered) requests would
+        # pile up against its concurrency limit; it judges the flood frames alone
+        ref = conn.get("flood_ref")
+        err = h2_expect(segs if ref is None else ref[:len(segs)])
         broken = any(v["clause"].startswith("handler-") for v in out)  # already dead/stuck: reported above
         if err is not None and not broken and (ending or rec.closed_at is None):
             out.append(V("h2-violation-not-closed", f"{tag}:{err}",
                          f"reference: {err}; closed_at={rec.closed_at} goaway={rec.client.h2.goaway}"))
         last = conn.get("flood_last")
-        # the request after a legal flood must be served, unless the server chose to end the connection
-        # (GOAWAY / close is an accepted way of refusing a flood)
+        # the requests after (and, mixed feed, in between) a legal flood must be served, unless the server chose to
+        # end the connection (GOAWAY / close is an accepted way of refusing a flood)
         if last is not None and err is None and not broken and ending and rec.client.h2.goaway is None:
-            st = rec.client.h2.streams.get(last)
-            if st is None or st["status"] != 200 or st["body"] != b"abc" or not st["ended"]:
-                out.append(V("stream-not-served", f"{tag}:after-flood", f"stream {last}: {st}; closed_at={rec.closed_at} "
-                             f"goaway={rec.client.h2.goaway} handler={rec.handler}"))
+            for sid in tuple(conn.get("flood_gets", ())) + (last,):
+                st = rec.client.h2.streams.get(sid)
+                if st is None or st["status"] != 200 or st["body"] != b"abc" or not st["ended"]:
+                    where = "after-flood" if sid == last else "during-flood"
+                    out.append(V("stream-not-served", f"{tag}:{where}", f"stream {sid}: {st}; closed_at={rec.closed_at} "
+                                 f"goaway={rec.client.h2.goaway} handler={rec.handler}"))
+                    break
         return out
     if conn["carrier"] not in H1_CARRIERS:
         return out
@@ -411,45 +483,70 @@ def splice_case(params: tuple, case: tuple) -> Tuple[dict, List[tuple]]:
 
 
 def flood_case(params: tuple, case: tuple) -> Tuple[dict, List[tuple]]:
-    """One legal frame repeated n times (in one read / in reads of 64 frames), then an ordinary GET."""
-    _, engine, op, n = params
+    """One legal frame repeated n times, then an ordinary GET.  Feeds: 'whole' one read, 'reads' reads of 64 frames,
+    'mixed' reads of 64 rounds of (flood frame, GET on a fresh stream): every prefix of the flood is followed by an
+    ordinary request, so a limit that the flood fills up exactly is met whatever its value."""
+    _, engine, op, n = params[:4]
     feed = case[0]
+    mixed = feed == "mixed"
     get = lambda sid: f_headers(sid, _GET_NOW, True)  # noqa: E731
+    per = FLOOD_IDS.get(op, 0)  # fresh stream ids one flood frame uses
+    stride = 2 * (per + (1 if mixed else 0))
+    base = 3 if op in FLOOD_HEAD else 1
     head = b""
-    last = 1
-    if op == "priority_idle":
-        frames = [f_priority(1 + 2 * i, 0, 10) for i in range(n)]
-        last = 1 + 2 * n
-    elif op == "priority_idle_parent":
-        frames = [f_priority(1 + 4 * i, 3 + 4 * i, 10) for i in range(n)]
-        last = 1 + 4 * n
-    elif op == "ping":
-        frames = [f_ping()] * n
-    elif op == "settings":
-        frames = [f_settings({4: 65535 + (i % 2)}) for i in range(n)]
-    elif op == "winup0":
-        frames = [f_winup(0, 1)] * n
-    elif op == "unknown":
-        frames = [frame(0x7F, 0, 0, b"zz")] * n
-    elif op == "winup_closed":
-        head, frames, last = get(1), [f_winup(1, 1)] * n, 3
-    elif op == "rst_closed":
-        head, frames, last = get(1), [f_rst(1, 8)] * n, 3
-    elif op == "data_empty":
+    if op in ("winup_closed", "rst_closed"):
+        head = get(1)
+    elif op in ("data_empty", "priority_reparent"):  # stream 1 stays open: the application never answers
         head = f_headers(1, [(b":method", b"POST"), (b":path", b"/never"), (b":scheme", b"https"),
                              (b":authority", b"hypercorn")], False)
-        frames, last = [f_data(1, b"", False)] * n, 3
-    elif op == "get":
-        frames = [get(1 + 2 * i) for i in range(n)]
-        last = 1 + 2 * n
-    else:
-        raise ValueError(op)
+    frames: List[bytes] = []
+    gets: List[int] = []
+    for i in range(n):
+        a = base + stride * i
+        if op == "priority_idle":  # idle streams below the root
+            fr = f_priority(a, 0, 10)
+        elif op == "priority_idle_parent":  # idle streams, each below an idle stream of its own
+            fr = f_priority(a, a + 2, 10)
+        elif op == "priority_idle_chain":  # idle streams, each below the idle stream that is prioritised next
+            fr = f_priority(a, a + stride, 10)
+        elif op == "priority_reparent":  # one open stream moved below ever new idle streams
+            fr = f_priority(1, a, 10 + i % 2, bool(i % 2))
+        elif op == "ping":
+            fr = f_ping()
+        elif op == "settings":
+            fr = f_settings({4: 65535 + (i % 2)})
+        elif op == "winup0":
+            fr = f_winup(0, 1)
+        elif op == "unknown":
+            fr = frame(0x7F, 0, 0, b"zz")
+        elif op == "winup_closed":
+            fr = f_winup(1, 1)
+        elif op == "rst_closed":
+            fr = f_rst(1, 8)
+        elif op == "data_empty":
+            fr = f_data(1, b"", False)
+        elif op == "get":
+            fr = get(a)
+        else:
+            raise ValueError(op)
+        frames.append(fr)
+        if mixed:
+            gets.append(a + 2 * per)
+    last = base + stride * n + 2  # above every id used, also as a parent
+    conn: dict = {**H2_TLS, "flood_last": last}
     if feed == "whole":
-        segs = [head + b"".join(frames)] if head or frames else []
+        segs = [head + b"".join(frames)]
+        ref = None
     else:
-        segs = ([head] if head else []) + [b"".join(frames[i:i + 64]) for i in range(0, n, 64)]
-    events = [("data", 0, h2_preamble())] + [("data", 0, x) for x in segs] + [("data", 0, get(last)), ("eof", 0)]
-    return {**H2_TLS, "flood_last": last}, events
+        rounds = [fr + (get(g) if mixed else b"") for fr, g in zip(frames, gets or frames)]
+        segs = ([head] if head else []) + [b"".join(rounds[i:i + 64]) for i in range(0, n, 64)]
+        ref = ([head] if head else []) + [b"".join(frames[i:i + 64]) for i in range(0, n, 64)]
+    if mixed:
+        # the flood is what is looked at: the number of requests per connection must not end it first
+        conn.update({"flood_gets": tuple(gets), "flood_ref": [h2_preamble()] + ref + [get(last)],
+                     "cfg": {"keep_alive_max_requests": 10 ** 6}})
+    events = [("data", 0, h2_preamble())] + [("data", 0, x) for x in segs if x] + [("data", 0, get(last)), ("eof", 0)]
+    return conn, events
 
 
 _GET_NOW = [(b":method", b"GET"), (b":path", b"/now"), (b":scheme", b"https"), (b":authority", b"hypercorn")]
@@ -481,7 +578,9 @@ def _cases(params: tuple) -> Any:
     if kind == "h2cup":
         return h2cup_cases()
     if kind == "flood":
-        return [("whole",), ("reads",)]
+        # mixed: quick only for the floods that make the server remember new streams
+        mixed = params[2] in FLOOD_IDS if params[4] == "quick" else True
+        return [("whole",), ("reads",)] + ([("mixed",)] if mixed and params[2] != "get" else [])
     if kind == "short":
         return short_strings(params[4])[params[5]:params[6]]
     if kind == "mut":
@@ -601,7 +700,140 @@ def oracle_odd(w: Any, params: tuple) -> List[dict]:
     return out
 
 
-execute = std_execute(build_odd, oracle_odd)
+# ---------------------------------------------------------------------------------------------
+# wsafter: Explorer A over what a client sends once its WebSocket has been closed
+
+
+def _wsafter_events(carrier: str, closer: str, late: str, feed: str) -> List[tuple]:
+    path = WSAFTER_CLOSERS[closer]
+    text, close, more = ws_frame(OP_TEXT, b"yo"), ws_close_frame(1000, "bye"), WSAFTER_LATE[late]
+    if feed == "bigread":
+        # one segment longer than a single read of the server: a message that is echoed, the close frame, and the
+        # late bytes repeated until they reach into the second read
+        body = ws_frame(OP_TEXT, b"a" * (MAX_RECV - 600 if carrier == "ws/h1" else 3 * H2_FRAME - 600)) + close
+    if carrier == "ws/h1":
+        hs = ws_h1_handshake(path)
+        if feed == "bigread":
+            seg = body + more * ((MAX_RECV - len(body)) // len(more) + 2)
+            data = [hs, seg]
+        else:
+            data = [hs, text + close if closer == "client_close" else text, more]
+    else:
+        hs = h2_preamble() + f_headers(1, ws_h2_headers(path), False)
+        if feed == "bigread":
+            # the WebSocket bytes in full DATA frames (within the stream's window), PING frames as filler up to the
+            # end of the first read, then the late bytes in a DATA frame of their own
+            seg = b"".join(f_data(1, body[i:i + H2_FRAME], False) for i in range(0, len(body), H2_FRAME))
+            seg += f_ping() * ((MAX_RECV - len(seg)) // len(f_ping()) + 1)
+            data = [hs, seg + f_data(1, more, False)]
+        else:
+            first = [f_data(1, text, False)] + ([f_data(1, close, False)] if closer == "client_close" else [])
+            data = [hs, b"".join(first), f_data(1, more, False)]
+    return [("data", 0, d) for d in data] + [("eof", 0)]
+
+
+def build_wsafter(params: tuple) -> tuple:
+    _, engine, carrier, closer, late, feed = params
+    conn = {"carrier": "ws/h1"} if carrier == "ws/h1" else {**H2_TLS, "carrier": "ws/h2", "ws_streams": (1,)}
+    sources = [("client", _wsafter_events(carrier, closer, late, feed))]
+    if closer != "client_close":
+        sources.append(("app", [("release", "g")]))
+    return engine, _scenario(conn, sources, midflight=True, trio_rev=True)
+
+
+def oracle_wsafter(w: Any, params: tuple) -> List[dict]:
+    _, engine, carrier, closer, late, feed = params
+    out = _internal(w, carrier)
+    if carrier == "ws/h2":
+        rec = w.conns[0]
+        err = h2_expect([e[2] for _, e in w.driver.fired if e[0] == "data"])
+        if err is not None and rec.closed_at is None and not out:
+            out.append(V("h2-violation-not-closed", f"{carrier}:{err}", f"{closer}/{late}/{feed}: reference {err}"))
+    return out
+
+
+# ---------------------------------------------------------------------------------------------
+# late: Explorer A over uploads that continue after the response, as far as flow control lets the client go
+
+
+def _post(path: bytes) -> List[Tuple[bytes, bytes]]:
+    return [(b":method", b"POST"), (b":path", path), (b":scheme", b"https"), (b":authority", b"hypercorn")]
+
+
+def _late_plan(shape: str, arr: str) -> Tuple[List[tuple], List[tuple], int]:
+    """(commands of the uploading source, commands of the sibling source, stream id of the sibling).
+
+    Every command goes through the client's own h2 connection (mc.clients.H2Client): a DATA command is enabled only
+    while the flow-control windows the *server* has granted cover it, exactly like a client that respects RFC 7540
+    6.9; nothing is ever sent that the peer has not made room for."""
+    parts, end_last = LATE_SHAPES[shape]
+    nlate = 1 + max(i for i, _ in parts)
+    if arr == "sib_open":  # the sibling's HEADERS go first, its body after the late DATA
+        sib, late_sids = 1, [3 + 2 * i for i in range(nlate)]
+    else:
+        sib, late_sids = 1 + 2 * nlate, [1 + 2 * i for i in range(nlate)]
+    up: List[tuple] = [("cmd", 0, "preface")]
+    sib_head = ("cmd", 0, "headers", sib, _post(b"/body"), False)
+    if arr == "sib_open":
+        up.append(sib_head)
+    for sid in late_sids:  # answered on the headers alone, the request body has not ended
+        up.append(("cmd", 0, "headers", sid, _post(b"/now"), False))
+    for i, total in parts:
+        while total:
+            n = min(total, H2_FRAME)
+            total -= n
+            up.append(("cmd", 0, "datan", late_sids[i], b"x" * n, end_last and not total))
+    side: List[tuple] = [("late_go", 0)]
+    if arr == "sib_after":
+        side.append(sib_head)
+    side.append(("cmd", 0, "datan", sib, b"hello", True))
+    return up, side, sib
+
+
+def _late_go(w: Any, ev: tuple) -> bool:
+    """The sibling's source starts once the client has seen the first early response (it then interleaves freely
+    with the late DATA, within the S bound)."""
+    return any(st["status"] is not None for st in w.conns[0].client.h2.streams.values())
+
+
+def build_late(params: tuple) -> tuple:
+    _, engine, shape, arr = params
+    up, side, _ = _late_plan(shape, arr)
+    sc = _scenario(dict(H2_TLS), [("client", up), ("sibling", side)], midflight=True, trio_rev=True)
+    sc["client_factory"] = make_client
+    sc["guards"] = {"late_go": _late_go}
+    return engine, sc
+
+
+def oracle_late(w: Any, params: tuple) -> List[dict]:
+    _, engine, shape, arr = params
+    up, side, sib = _late_plan(shape, arr)
+    out = _internal(w, "h2")
+    rec = w.conns[0]
+    view = rec.client.h2
+    st = view.streams.get(sib)
+    if st is not None and st["status"] == 200 and st["body"] == b"abc" and st["ended"]:
+        return out
+    unfired = [evs[w.driver.pos[i]:] for i, (_, evs) in enumerate(w.driver.sources)]
+    if any(e[2] == "datan" and e[3] == sib for e in unfired[1] if e[0] == "cmd") and rec.closed_at is None:
+        what = "upload-blocked"  # the windows the server left the client do not allow the sibling's body
+    elif st is None or st["status"] is None:
+        what = "no-response"
+    elif st["status"] != 200:
+        what = f"status-{st['status']}"
+    else:
+        what = "partial" if st["reset"] is None else f"reset-{st['reset']}"
+    out.append(V("other-stream-incomplete", f"h2:data-after-response:{what}",
+                 f"{shape}/{arr}: sibling stream {sib} got {st}; client send window: connection "
+                 f"{view.conn.outbound_flow_control_window}; commands not sent {[e[2:5] for u in unfired for e in u][:6]}; "
+                 f"refused by the client library {view.skipped}; closed_at={rec.closed_at} goaway={view.goaway} "
+                 f"client error={view.error} handler={rec.handler}"))
+    return out
+
+
+_BUILD = {"odd": build_odd, "wsafter": build_wsafter, "late": build_late}
+_ORACLE = {"odd": oracle_odd, "wsafter": oracle_wsafter, "late": oracle_late}
+execute = std_execute(lambda params: _BUILD[params[0]](params), lambda w, params: _ORACLE[params[0]](w, params))
 
 # ---------------------------------------------------------------------------------------------
 # gram: Explorer B
@@ -709,7 +941,7 @@ def _account(res: dict, r: ExecResult, params: Any, case: Any) -> None:
 
 def explore_item_custom(params: tuple, tier: str, deadline: float) -> dict:
     kind = params[0]
-    if kind == "odd":
+    if kind in EXPLORER_A:
         last: List[Any] = []
 
         def execute_fresh(p: Any, prefix: List[int]) -> ExecResult:
